@@ -43,6 +43,61 @@ partial def valOfJson (j : Json) : Except String Val :=
     | _ => throw "bad value object"
   | _ => throw "bad value"
 
+/-- YAML node trees as the harness serialises yaml.v3's `yaml.Node` (aliases already followed):
+    {"k":"scalar","tag":"!!int","v":"12","fr":"12"} | {"k":"seq","items":[…]} |
+    {"k":"map","pairs":[["key",node],…]} | {"k":"empty"} -/
+partial def ynodeOfJson (j : Json) : Except String YNode := do
+  let k ← j.getObjValAs? String "k"
+  match k with
+  | "scalar" =>
+    pure (.scalar (← j.getObjValAs? String "tag") (← j.getObjValAs? String "v") (← j.getObjValAs? String "fr"))
+  | "seq" => do
+    let items ← j.getObjValAs? (Array Json) "items"
+    pure (.seq (← items.toList.mapM ynodeOfJson))
+  | "map" => do
+    let pairs ← j.getObjValAs? (Array Json) "pairs"
+    let ps ← pairs.toList.mapM fun e =>
+      match e with
+      | .arr #[.str key, v] => do pure (key, ← ynodeOfJson v)
+      | _ => throw "bad pair"
+    pure (.mapping ps)
+  | "empty" => pure .empty
+  | _ => throw s!"bad ynode kind {k}"
+
+/-- raw decoder values as the harness serialises what encoding/json / go-toml hand to bkl:
+    null | bool | "s" | {"int":"5"} | {"int64":"5"} | {"float":"0.5"} | {"jnum":"1e3","fr":"1000"} |
+    [..] | {"map":[["k",raw],…]} | {"lom":[[["k",raw],…],…]} | {"mapany":true} -/
+partial def rawOfJson (j : Json) : Except String Raw :=
+  match j with
+  | .null => pure .null
+  | .bool b => pure (.bool b)
+  | .str s => pure (.str s)
+  | .arr a => do pure (.list (← a.toList.mapM rawOfJson))
+  | .obj _ =>
+    let int? (key : String) : Option Int := match j.getObjVal? key with
+      | .ok (.str t) => t.toInt?
+      | _ => none
+    let fields (e : Json) : Except String (List (String × Raw)) :=
+      match e with
+      | .arr es => es.toList.mapM fun x => match x with
+        | .arr #[.str k, v] => do pure (k, ← rawOfJson v)
+        | _ => throw "bad raw map entry"
+      | _ => throw "bad raw map"
+    match int? "int", int? "int64" with
+    | some i, _ => pure (.goInt i)
+    | _, some i => pure (.goInt64 i)
+    | _, _ =>
+    match j.getObjVal? "float", j.getObjVal? "jnum", j.getObjVal? "map", j.getObjVal? "lom" with
+    | .ok (.str f), _, _, _ => pure (.goFloat f)
+    | _, .ok (.str t), _, _ => do pure (.jnum t (← j.getObjValAs? String "fr"))
+    | _, _, .ok m, _ => do pure (.map (← fields m))
+    | _, _, _, .ok (.arr ms) => do pure (.listOfMaps (← ms.toList.mapM fields))
+    | _, _, _, _ =>
+      match j.getObjVal? "mapany" with
+      | .ok _ => pure .mapAny
+      | _ => throw "bad raw object"
+  | _ => throw "bad raw value"
+
 def errJson (e : Err) : Json :=
   if e == .unmodelled then Json.mkObj [("unmodelled", Json.bool true)]
   else Json.mkObj [("err", Json.str e.name)]
@@ -186,6 +241,17 @@ def handle (j : Json) : Except String Json := do
     | .ok ws => pure (Json.mkObj [("ok", Json.arr (ws.map fun w => match w with
         | .verbatim s => Json.mkObj [("verbatim", Json.str s)]
         | .evaluated f ds => Json.mkObj [("format", Json.str f), ("docs", Json.arr (ds.map valToJson).toArray)]).toArray)])
+    | .error e => pure (errJson e)
+  | "yamltree" =>
+    -- yaml.go:yamlTranslateNode followed by normalize.go:normalize (what loadFile does per document)
+    let n ← ynodeOfJson (j.getObjValD "node")
+    match yamlTranslate n >>= normalize with
+    | .ok v => pure (Json.mkObj [("ok", valToJson v)])
+    | .error e => pure (errJson e)
+  | "rawnorm" =>
+    let r ← rawOfJson (j.getObjValD "raw")
+    match normalize r with
+    | .ok v => pure (Json.mkObj [("ok", valToJson v)])
     | .error e => pure (errJson e)
   | "parseref" =>
     let s ← j.getObjValAs? String "s"
